@@ -27,13 +27,18 @@ var c15SymsSmall = []string{"a", "é", "\u2028", "\r", "\n", "\x80"}
 // raw bytes: every prefix / suffix of the multi-byte symbols occurs
 var c15Bytes = []byte{'a', '\r', '\n', 0xC3, 0xA9, 0xE2, 0x80, 0xA8, 0xF0, 0}
 
+// boundary encodings: overlong forms, surrogates, beyond U+10FFFF, 5-byte leads, and the valid neighbours
+var c15EdgeSyms = []string{"a", "\n", "\xC0\x80", "\xC1\xBF", "\xC2\x80", "\xDF\xBF", "\xE0\x80\x80", "\xE0\x9F\xBF", "\xE0\xA0\x80",
+	"\xED\x9F\xBF", "\xED\xA0\x80", "\xED\xBF\xBF", "\xEE\x80\x80", "\xEF\xBF\xBD", "\xF0\x80\x80\x80", "\xF0\x8F\xBF\xBF", "\xF0\x90\x80\x80",
+	"\xF4\x8F\xBF\xBF", "\xF4\x90\x80\x80", "\xF5\x80\x80\x80", "\xF8\x88\x80\x80\x80", "\xE2\x80", "\xF0\x9F\x98"}
+
 // runes of the long-line generator: ASCII, 2/3/4-byte, non-graphic (TAB, NUL, DEL, NEL, ZWSP, LS, PS),
 // graphic-but-not-printable-by-IsPrint (NBSP), the replacement glyphs themselves
 var c15Runes = []rune{'a', 'b', 'z', ' ', '.', 'é', '世', 0x10348, '\t', 0, 0xA0, 0xB7, 0x200B, 0x301, 0x2028, 0x2029, 0xFFFD, 0x7F, 0x85, '0'}
 
-// nonGraphic lists every rune that decoding may meet anywhere in the text (decoded at every byte
+// c15NonGraphic lists every rune that decoding may meet anywhere in the text (decoded at every byte
 // offset) for which unicode.IsGraphic is false.
-func nonGraphic(text []byte) []int64 {
+func c15NonGraphic(text []byte) []int64 {
 	set := map[rune]bool{}
 	for i := range text {
 		r, _ := utf8.DecodeRune(text[i:])
@@ -57,30 +62,30 @@ func c15Note(text []byte, off int64, e int64) string {
 	return s
 }
 
-func posCase(text []byte, off int, e int64) Case {
+func c15PosCase(text []byte, off int, e int64) Case {
 	args := []int64{int64(off), e}
 	args = append(args, bytesToArgs(text)...)
-	ng := nonGraphic(text)
+	ng := c15NonGraphic(text)
 	args = append(args, int64(len(ng)))
 	args = append(args, ng...)
 	return Case{Fn: "position", Args: args, Note: c15Note(text, int64(off), e)}
 }
 
-// errLexerCase: NewErrorLexer after Move(p1); Skip(); Move(p-p1), so that Pos() != Offset()
-func errLexerCase(text []byte, p int) Case {
+// c15ErrLexerCase: NewErrorLexer after Move(p1); Skip(); Move(p-p1), so that Pos() != Offset()
+func c15ErrLexerCase(text []byte, p int) Case {
 	p1 := 0
 	if p > 0 {
 		p1 = (p*7 + len(text)) % (p + 1)
 	}
 	args := []int64{int64(p1), int64(p - p1)}
 	args = append(args, bytesToArgs(text)...)
-	ng := nonGraphic(text)
+	ng := c15NonGraphic(text)
 	args = append(args, int64(len(ng)))
 	args = append(args, ng...)
 	return Case{Fn: "errlexer", Args: args, Note: "NewErrorLexer " + c15Note(text, int64(p), 0)}
 }
 
-func encPosition(line, col int, ctx string) []int64 {
+func c15EncPosition(line, col int, ctx string) []int64 {
 	if !utf8.ValidString(ctx) {
 		return []int64{-777}
 	}
@@ -117,7 +122,7 @@ func c15Reader(d []byte, off int64, e int64) io.Reader {
 	}
 }
 
-func positionImpl(c Case) []int64 {
+func c15PositionImpl(c Case) []int64 {
 	off, e := c.Args[0], c.Args[1]
 	dv, _ := takeList(c.Args[2:])
 	d := toBytes(dv)
@@ -127,10 +132,10 @@ func positionImpl(c Case) []int64 {
 	if p := catch(func() { line, col, ctx = parse.Position(rd, int(off)) }); p != nil {
 		return []int64{-1}
 	}
-	return encPosition(line, col, ctx)
+	return c15EncPosition(line, col, ctx)
 }
 
-func errLexerImpl(c Case) []int64 {
+func c15ErrLexerImpl(c Case) []int64 {
 	p1, p2 := int(c.Args[0]), int(c.Args[1])
 	dv, _ := takeList(c.Args[2:])
 	d := toBytes(dv)
@@ -152,10 +157,10 @@ func errLexerImpl(c Case) []int64 {
 	}); pn != nil {
 		return []int64{-1}
 	}
-	return encPosition(er.Line, er.Column, er.Context)
+	return c15EncPosition(er.Line, er.Column, er.Context)
 }
 
-func symsText(syms []string, idx []int) []byte {
+func c15SymsText(syms []string, idx []int) []byte {
 	var b []byte
 	for _, i := range idx {
 		b = append(b, syms[i]...)
@@ -163,12 +168,12 @@ func symsText(syms []string, idx []int) []byte {
 	return b
 }
 
-// allSymTexts enumerates all sequences of at most k symbols.
-func allSymTexts(syms []string, k int, f func([]byte)) {
+// c15AllSymTexts enumerates all sequences of at most k symbols.
+func c15AllSymTexts(syms []string, k int, f func([]byte)) {
 	idx := make([]int, 0, k)
 	var rec func()
 	rec = func() {
-		f(symsText(syms, idx))
+		f(c15SymsText(syms, idx))
 		if len(idx) == k {
 			return
 		}
@@ -295,15 +300,15 @@ func c15Shrink(c Case) []Case {
 		for i := range d {
 			nd := append(append([]byte{}, d[:i]...), d[i+1:]...)
 			if i < off {
-				out = append(out, posCase(nd, off-1, e))
+				out = append(out, c15PosCase(nd, off-1, e))
 			}
-			out = append(out, posCase(nd, off, e))
+			out = append(out, c15PosCase(nd, off, e))
 		}
 		for i := range d {
 			if d[i] != 'a' && d[i] < 0x80 && d[i] != '\n' && d[i] != '\r' {
 				nd := append([]byte{}, d...)
 				nd[i] = 'a'
-				out = append(out, posCase(nd, off, e))
+				out = append(out, c15PosCase(nd, off, e))
 			}
 		}
 		return out
@@ -314,19 +319,19 @@ func c15Shrink(c Case) []Case {
 	for i := range d {
 		nd := append(append([]byte{}, d[:i]...), d[i+1:]...)
 		if i < p {
-			out = append(out, errLexerCase(nd, p-1))
+			out = append(out, c15ErrLexerCase(nd, p-1))
 		}
-		out = append(out, errLexerCase(nd, p))
+		out = append(out, c15ErrLexerCase(nd, p))
 	}
 	return out
 }
 
-var positionModel = &Model{
+var c15PositionModel = &Model{
 	Name: "position",
 	Gen: func(r *Rng, tier string, emit func(Case)) {
 		all := func(text []byte) {
 			for off := -1; off <= len(text)+1; off++ {
-				emit(posCase(text, off, 0))
+				emit(c15PosCase(text, off, 0))
 			}
 		}
 		// exhaustive small scope: symbols and raw bytes x every offset in [-1, len+1]
@@ -334,13 +339,18 @@ var positionModel = &Model{
 		if tier == "thorough" {
 			k1, k2, k3 = 4, 6, 5
 		}
-		allSymTexts(c15Syms, k1, all)
-		allSymTexts(c15SymsSmall, k2, func(t []byte) {
+		c15AllSymTexts(c15Syms, k1, all)
+		c15AllSymTexts(c15SymsSmall, k2, func(t []byte) {
 			if utf8.RuneCount(t) > k1 || bytes.ContainsAny(t, "\u2029\t\x00") {
 				all(t)
 			}
 		})
 		allStrings(c15Bytes, k3, all)
+		k4 := 2
+		if tier == "thorough" {
+			k4 = 3
+		}
+		c15AllSymTexts(c15EdgeSyms, k4, all)
 		// 59/60/61-rune lines (and the other regime boundaries): every offset
 		reps := 3
 		if tier == "thorough" {
@@ -380,36 +390,36 @@ var positionModel = &Model{
 				if off > len(text)+1 {
 					off = len(text) + 1
 				}
-				emit(posCase(text, off, 0))
+				emit(c15PosCase(text, off, 0))
 			}
 		}
 		// line numbers across the widths of %5d that the model side can afford (<= 10^4 bytes)
 		for _, n := range []int{8, 9, 10, 98, 99, 100, 998, 999, 1000, 9998, 9999} {
 			text := append(bytes.Repeat([]byte("\n"), n), "xyz"...)
-			emit(posCase(text, n+1, 0))
+			emit(c15PosCase(text, n+1, 0))
 			if n < 2000 {
-				emit(posCase(text, n-1, 0))
+				emit(c15PosCase(text, n-1, 0))
 				text = append(bytes.Repeat([]byte("\r\n"), n), "é\t"...)
-				emit(posCase(text, 2*n+2, 0))
+				emit(c15PosCase(text, 2*n+2, 0))
 			}
 		}
 		// failing reader: everything is discarded
 		for i := 0; i < 20; i++ {
 			text := c15LongText(r, r.Intn(70), false)
-			emit(posCase(text, r.Intn(len(text)+3)-1, 2))
+			emit(c15PosCase(text, r.Intn(len(text)+3)-1, 2))
 		}
 	},
-	Impl:   positionImpl,
+	Impl:   c15PositionImpl,
 	Shrink: c15Shrink,
 	Class:  c15Class,
 }
 
-var errLexerModel = &Model{
+var c15ErrLexerModel = &Model{
 	Name: "errlexer",
 	Gen: func(r *Rng, tier string, emit func(Case)) {
-		allSymTexts(c15SymsSmall, 3, func(t []byte) {
+		c15AllSymTexts(c15SymsSmall, 3, func(t []byte) {
 			for p := -1; p <= len(t)+2; p++ {
-				emit(errLexerCase(t, p))
+				emit(c15ErrLexerCase(t, p))
 			}
 		})
 		m := 600
@@ -418,10 +428,10 @@ var errLexerModel = &Model{
 		}
 		for i := 0; i < m; i++ {
 			text := c15LongText(r, c15LineLens[r.Intn(len(c15LineLens))], i%5 == 4)
-			emit(errLexerCase(text, r.Intn(len(text)+4)-1))
+			emit(c15ErrLexerCase(text, r.Intn(len(text)+4)-1))
 		}
 	},
-	Impl:   errLexerImpl,
+	Impl:   c15ErrLexerImpl,
 	Shrink: c15Shrink,
 	Class:  c15Class,
 }
@@ -491,7 +501,7 @@ func c15Disp(rs []rune) []rune {
 	return out
 }
 
-func runesEq(a, b []rune) bool {
+func c15RunesEq(a, b []rune) bool {
 	if len(a) != len(b) {
 		return false
 	}
@@ -523,13 +533,13 @@ func c15CheckContext(ctx string, L []rune, ci int, line int) (problem string, ca
 		w = 5
 	}
 	prefix := []rune(strings.Repeat(" ", w-len(digits)) + digits + ": ")
-	if len(first) < len(prefix) || !runesEq(first[:len(prefix)], prefix) {
+	if len(first) < len(prefix) || !c15RunesEq(first[:len(prefix)], prefix) {
 		return fmt.Sprintf("first line does not start with %q", string(prefix)), false
 	}
 	rest := first[len(prefix):]
 	D := c15Disp(L)
 	if len(L) <= 60 {
-		if !runesEq(rest, D) {
+		if !c15RunesEq(rest, D) {
 			return fmt.Sprintf("a line of %d characters is not shown in full", len(L)), false
 		}
 		if caret != len(prefix)+ci {
@@ -567,7 +577,7 @@ func c15CheckContext(ctx string, L []rune, ci int, line int) (problem string, ca
 				if !(lo <= ci && (ci < hi || (ci == hi && hi == len(D)))) {
 					continue
 				}
-				if !runesEq(body, D[lo:hi]) {
+				if !c15RunesEq(body, D[lo:hi]) {
 					continue
 				}
 				contentOK = true
@@ -638,12 +648,12 @@ func c15PositionOracle(r *Rng, tier string, rep *Report) {
 	if tier == "thorough" {
 		k = 5
 	}
-	allSymTexts(valid[:8], k, func(t []byte) {
+	c15AllSymTexts(valid[:8], k, func(t []byte) {
 		for off := -1; off <= len(t)+1; off++ {
 			c15CheckPosition(t, off, rep, "small-scope")
 		}
 	})
-	allSymTexts([]string{"a", "\r", "\n", "\u2029", "世", "\U00010348"}, k+1, func(t []byte) {
+	c15AllSymTexts([]string{"a", "\r", "\n", "\u2029", "世", "\U00010348"}, k+1, func(t []byte) {
 		for off := -1; off <= len(t)+1; off++ {
 			c15CheckPosition(t, off, rep, "small-scope-2")
 		}
@@ -685,23 +695,23 @@ func c15PositionOracle(r *Rng, tier string, rep *Report) {
 
 // ---- oracle 2: error positions of all parsers ------------------------------------------------------
 
-type posTriple struct {
+type c15PosTriple struct {
 	line, col int
 	ctx       string
 }
 
-func positionOf(input []byte, off int) posTriple {
+func c15PositionOf(input []byte, off int) c15PosTriple {
 	l, c, x := parse.Position(bytes.NewReader(input), off)
-	return posTriple{l, c, x}
+	return c15PosTriple{l, c, x}
 }
 
-// findOffset returns an offset k in [0, len] with Position(input, k) == want, preferring hint; -1 if none.
-func findOffset(input []byte, want posTriple, hint int) int {
-	if hint >= 0 && hint <= len(input) && positionOf(input, hint) == want {
+// c15FindOffset returns an offset k in [0, len] with Position(input, k) == want, preferring hint; -1 if none.
+func c15FindOffset(input []byte, want c15PosTriple, hint int) int {
+	if hint >= 0 && hint <= len(input) && c15PositionOf(input, hint) == want {
 		return hint
 	}
 	for k := 0; k <= len(input); k++ {
-		if positionOf(input, k) == want {
+		if c15PositionOf(input, k) == want {
 			return k
 		}
 	}
@@ -710,23 +720,36 @@ func findOffset(input []byte, want posTriple, hint int) int {
 
 // c15CheckError: the error must carry what Position computes for a byte inside the input; when the
 // offset at which the parser stopped is known it must be that byte.
-func c15CheckError(rep *Report, who string, input []byte, err error, stop int, exact bool) {
+// buf is the parser's own buffer at the time of the error (nil when not observable): a parser that has
+// modified its buffer in place reports positions of the modified text.
+func c15CheckError(rep *Report, who string, input, buf []byte, err error, stop int, exact bool) {
 	pe, ok := err.(*parse.Error)
 	if !ok {
 		return
 	}
 	l, c, x := pe.Position()
-	got := posTriple{l, c, x}
+	got := c15PosTriple{l, c, x}
 	replay := map[string]interface{}{"parser": who, "input": hx(input), "line": l, "col": c, "context": x, "message": pe.Message, "stop": stop}
 	if l != pe.Line || c != pe.Column || x != pe.Context {
 		rep.Violate("c15-error-accessor:"+who, "Error.Position() differs from the fields", replay)
 	}
-	k := findOffset(input, got, stop)
+	k := c15FindOffset(input, got, stop)
+	if k < 0 && buf != nil && !bytes.Equal(buf, input) && c15FindOffset(buf, got, stop) >= 0 {
+		// the position is a Position of the parser's buffer, which is no longer the input
+		want := c15PositionOf(input, c15FindOffset(buf, got, stop))
+		replay["buffer"] = hx(buf)
+		if want.line == l && want.col == c {
+			rep.Violate("c15-error-modified-buffer:"+who+":context-only", fmt.Sprintf("%s on %q: the parser changed its input buffer in place to %q; line %d and column %d are those of the input, the context %q is that of the changed buffer (input: %q)", who, trunc(string(input), 200), trunc(string(buf), 200), l, c, x, want.ctx), replay)
+		} else {
+			rep.Violate("c15-error-modified-buffer:"+who+":line-column", fmt.Sprintf("%s on %q: the parser changed its input buffer in place to %q and reports line %d column %d; in the input the byte it stopped at is on line %d column %d", who, trunc(string(input), 200), trunc(string(buf), 200), l, c, want.line, want.col), replay)
+		}
+		return
+	}
 	if k < 0 {
 		rep.Violate("c15-error-notposition:"+who+":"+trunc(hx(input), 80), fmt.Sprintf("%s on %q: error position (line %d, col %d, %q) is not what Position computes for any offset in [0,%d]", who, trunc(string(input), 200), l, c, x, len(input)), replay)
 		return
 	}
-	if exact && k != stop && positionOf(input, stop) != got {
+	if exact && k != stop && c15PositionOf(input, stop) != got {
 		rep.Violate("c15-error-offset:"+who+":"+trunc(hx(input), 80), fmt.Sprintf("%s on %q: error reported at offset %d (line %d, col %d), the parser stopped at byte %d", who, trunc(string(input), 200), k, l, c, stop), replay)
 	}
 	if want := fmt.Sprintf("%s on line %d and column %d\n%s", pe.Message, l, c, x); pe.Error() != want {
@@ -735,11 +758,8 @@ func c15CheckError(rep *Report, who string, input []byte, err error, stop int, e
 }
 
 // --- generated documents as token lists ---
-type tokDoc struct {
-	toks []string
-}
 
-func genJSONValue(r *Rng, depth int, out *[]string) {
+func c15GenJSONValue(r *Rng, depth int, out *[]string) {
 	switch k := r.Intn(9); {
 	case k < 2 && depth < 4:
 		*out = append(*out, "{")
@@ -749,7 +769,7 @@ func genJSONValue(r *Rng, depth int, out *[]string) {
 				*out = append(*out, ",")
 			}
 			*out = append(*out, []string{`"a"`, `"key"`, `"é\n"`, `"\\\""`, `""`}[r.Intn(5)], ":")
-			genJSONValue(r, depth+1, out)
+			c15GenJSONValue(r, depth+1, out)
 		}
 		*out = append(*out, "}")
 	case k < 4 && depth < 4:
@@ -759,7 +779,7 @@ func genJSONValue(r *Rng, depth int, out *[]string) {
 			if i > 0 {
 				*out = append(*out, ",")
 			}
-			genJSONValue(r, depth+1, out)
+			c15GenJSONValue(r, depth+1, out)
 		}
 		*out = append(*out, "]")
 	case k < 6:
@@ -773,8 +793,8 @@ func genJSONValue(r *Rng, depth int, out *[]string) {
 
 var c15WS = []string{"", "", " ", "\n", "\r\n", "\t", "  ", "\r", " \n "}
 
-// joinToks joins tokens with whitespace; starts[i] is the offset of token i, ends[i] its end.
-func joinToks(r *Rng, toks []string, ws []string, must func(a, b string) bool) (doc []byte, starts, ends []int) {
+// c15JoinToks joins tokens with whitespace; starts[i] is the offset of token i, ends[i] its end.
+func c15JoinToks(r *Rng, toks []string, ws []string, must func(a, b string) bool) (doc []byte, starts, ends []int) {
 	for i, t := range toks {
 		if i > 0 {
 			w := ws[r.Intn(len(ws))]
@@ -790,7 +810,7 @@ func joinToks(r *Rng, toks []string, ws []string, must func(a, b string) bool) (
 	return
 }
 
-func insertAt(doc []byte, at int, ins string) []byte {
+func c15InsertAt(doc []byte, at int, ins string) []byte {
 	out := make([]byte, 0, len(doc)+len(ins))
 	out = append(out, doc[:at]...)
 	out = append(out, ins...)
@@ -798,7 +818,7 @@ func insertAt(doc []byte, at int, ins string) []byte {
 	return out
 }
 
-func boundaryPoints(doc []byte, starts, ends []int) []int {
+func c15BoundaryPoints(doc []byte, starts, ends []int) []int {
 	set := map[int]bool{0: true, len(doc): true}
 	for i := range starts {
 		set[starts[i]] = true
@@ -812,7 +832,7 @@ func boundaryPoints(doc []byte, starts, ends []int) []int {
 	return pts
 }
 
-func runJSON(input []byte) (err error, stop int, units int) {
+func c15RunJSON(input []byte) (err error, stop int, units int) {
 	in := parse.NewInputBytes(append([]byte{}, input...))
 	p := json.NewParser(in)
 	for i := 0; i < len(input)+5; i++ {
@@ -828,7 +848,7 @@ func runJSON(input []byte) (err error, stop int, units int) {
 var c15IllegalJSON = []string{"#", "@", "\x00", "\x01", "x", "©", "\x80", "'", "=", "\u2028"}
 var c15IllegalJS = []string{"@", "\x00", "\x01", "\x7f", "©", "\x80", "€"}
 
-func isWordTok(s string) bool {
+func c15IsWordTok(s string) bool {
 	if s == "" {
 		return false
 	}
@@ -836,7 +856,7 @@ func isWordTok(s string) bool {
 	return c == '_' || c == '$' || c >= '0' && c <= '9' || c >= 'a' && c <= 'z' || c >= 'A' && c <= 'Z' || c >= 0x80
 }
 
-func isWordStart(s string) bool {
+func c15IsWordStart(s string) bool {
 	if s == "" {
 		return false
 	}
@@ -845,15 +865,15 @@ func isWordStart(s string) bool {
 }
 
 // tokens that may not touch: two words, or operator characters that would fuse
-func jsMustSeparate(a, b string) bool {
-	if isWordTok(a) && isWordStart(b) {
+func c15JsMustSeparate(a, b string) bool {
+	if c15IsWordTok(a) && c15IsWordStart(b) {
 		return true
 	}
 	la, fb := a[len(a)-1], b[0]
 	return strings.IndexByte("+-*%<>=!&|^~?.", la) >= 0 && strings.IndexByte("+-*%<>=!&|^~?.", fb) >= 0
 }
 
-func genJSExpr(r *Rng, depth int, out *[]string) {
+func c15GenJSExpr(r *Rng, depth int, out *[]string) {
 	switch k := r.Intn(12); {
 	case k < 3 || depth > 3:
 		*out = append(*out, []string{"a", "b", "foo", "x1", "é", "$"}[r.Intn(6)])
@@ -862,12 +882,12 @@ func genJSExpr(r *Rng, depth int, out *[]string) {
 	case k < 6:
 		*out = append(*out, []string{`"s"`, `'t'`, `"世"`, `'a\'b'`}[r.Intn(4)])
 	case k < 8:
-		genJSExpr(r, depth+1, out)
+		c15GenJSExpr(r, depth+1, out)
 		*out = append(*out, []string{"+", "-", "*", "%", "==", "===", "<", "&&", "||", ">>", "!=", "&"}[r.Intn(12)])
-		genJSExpr(r, depth+1, out)
+		c15GenJSExpr(r, depth+1, out)
 	case k < 9:
 		*out = append(*out, "(")
-		genJSExpr(r, depth+1, out)
+		c15GenJSExpr(r, depth+1, out)
 		*out = append(*out, ")")
 	case k < 10:
 		*out = append(*out, []string{"f", "g", "obj"}[r.Intn(3)], "(")
@@ -876,7 +896,7 @@ func genJSExpr(r *Rng, depth int, out *[]string) {
 			if i > 0 {
 				*out = append(*out, ",")
 			}
-			genJSExpr(r, depth+1, out)
+			c15GenJSExpr(r, depth+1, out)
 		}
 		*out = append(*out, ")")
 	case k < 11:
@@ -886,7 +906,7 @@ func genJSExpr(r *Rng, depth int, out *[]string) {
 			if i > 0 {
 				*out = append(*out, ",")
 			}
-			genJSExpr(r, depth+1, out)
+			c15GenJSExpr(r, depth+1, out)
 		}
 		*out = append(*out, "]")
 	default:
@@ -894,40 +914,40 @@ func genJSExpr(r *Rng, depth int, out *[]string) {
 	}
 }
 
-func genJSStmt(r *Rng, depth int, out *[]string) {
+func c15GenJSStmt(r *Rng, depth int, out *[]string) {
 	switch k := r.Intn(10); {
 	case k < 3:
 		*out = append(*out, []string{"var", "let", "const"}[r.Intn(3)], fmt.Sprintf("%s%d", []string{"v", "w_", "é"}[r.Intn(3)], len(*out)), "=")
-		genJSExpr(r, 1, out)
+		c15GenJSExpr(r, 1, out)
 		*out = append(*out, ";")
 	case k < 6 || depth > 2:
 		*out = append(*out, []string{"x", "y"}[r.Intn(2)], "=")
-		genJSExpr(r, 1, out)
+		c15GenJSExpr(r, 1, out)
 		*out = append(*out, ";")
 	case k < 7:
 		*out = append(*out, "if", "(")
-		genJSExpr(r, 1, out)
+		c15GenJSExpr(r, 1, out)
 		*out = append(*out, ")", "{")
-		genJSStmt(r, depth+1, out)
+		c15GenJSStmt(r, depth+1, out)
 		*out = append(*out, "}")
 		if r.Bool() {
 			*out = append(*out, "else", "{")
-			genJSStmt(r, depth+1, out)
+			c15GenJSStmt(r, depth+1, out)
 			*out = append(*out, "}")
 		}
 	case k < 8:
 		*out = append(*out, "while", "(")
-		genJSExpr(r, 1, out)
+		c15GenJSExpr(r, 1, out)
 		*out = append(*out, ")", "{")
-		genJSStmt(r, depth+1, out)
+		c15GenJSStmt(r, depth+1, out)
 		*out = append(*out, "}")
 	case k < 9:
 		*out = append(*out, "function", []string{"f", "g"}[r.Intn(2)], "(", "p", ",", "q", ")", "{", "return")
-		genJSExpr(r, 1, out)
+		c15GenJSExpr(r, 1, out)
 		*out = append(*out, ";", "}")
 	default:
 		*out = append(*out, "for", "(", "i", "=", "0", ";", "i", "<", "n", ";", "i", "+=", "1", ")", "{")
-		genJSStmt(r, depth+1, out)
+		c15GenJSStmt(r, depth+1, out)
 		*out = append(*out, "}")
 	}
 }
@@ -946,17 +966,17 @@ func c15ErrorOracle(r *Rng, tier string, rep *Report) {
 	// JSON: valid documents x every token boundary x illegal characters
 	for i := 0; i < nd; i++ {
 		var toks []string
-		genJSONValue(r, 0, &toks)
-		doc, starts, ends := joinToks(r, toks, c15WS, nil)
-		if err, _, _ := runJSON(doc); err != io.EOF {
+		c15GenJSONValue(r, 0, &toks)
+		doc, starts, ends := c15JoinToks(r, toks, c15WS, nil)
+		if err, _, _ := c15RunJSON(doc); err != io.EOF {
 			rep.Eval("gen:"+string(doc), false, "json-generated-document-rejected")
 			rejected++
 			continue
 		}
-		for _, at := range boundaryPoints(doc, starts, ends) {
+		for _, at := range c15BoundaryPoints(doc, starts, ends) {
 			for _, ill := range c15IllegalJSON {
-				input := insertAt(doc, at, ill)
-				err, stop, _ := runJSON(input)
+				input := c15InsertAt(doc, at, ill)
+				err, stop, _ := c15RunJSON(input)
 				key := fmt.Sprintf("json:%x", input)
 				replay := map[string]interface{}{"parser": "json", "input": hx(input), "inserted_at": at}
 				pe, ok := err.(*parse.Error)
@@ -965,16 +985,16 @@ func c15ErrorOracle(r *Rng, tier string, rep *Report) {
 					rep.Eval(key, true, "json-insert")
 					continue
 				}
-				want := positionOf(input, at)
+				want := c15PositionOf(input, at)
 				if utf8.Valid(input) {
 					if wl, wc, _, _ := c15Ref(input, at); want.line != wl || want.col != wc {
 						rep.Violate("c15-linecol:"+trunc(hx(input), 80), "Position disagrees with the reference count", replay)
 					}
 				}
-				if got := (posTriple{pe.Line, pe.Column, pe.Context}); got != want {
+				if got := (c15PosTriple{pe.Line, pe.Column, pe.Context}); got != want {
 					rep.Violate("c15-insert-position:json:"+trunc(hx(input), 80), fmt.Sprintf("json: %q with %q inserted at offset %d (line %d col %d): error %q reported at line %d col %d", doc, ill, at, want.line, want.col, pe.Message, pe.Line, pe.Column), replay)
 				}
-				c15CheckError(rep, "json", input, err, stop, true)
+				c15CheckError(rep, "json", input, nil, err, stop, true)
 				rep.Eval(key, true, "json-insert")
 			}
 		}
@@ -983,18 +1003,18 @@ func c15ErrorOracle(r *Rng, tier string, rep *Report) {
 	for i := 0; i < nd; i++ {
 		var toks []string
 		for n := 1 + r.Intn(3); n > 0; n-- {
-			genJSStmt(r, 0, &toks)
+			c15GenJSStmt(r, 0, &toks)
 		}
-		doc, starts, ends := joinToks(r, toks, c15WS, jsMustSeparate)
+		doc, starts, ends := c15JoinToks(r, toks, c15WS, c15JsMustSeparate)
 		opts := js.Options{WhileToFor: i%2 == 1, Inline: i%4 >= 2}
 		if _, err := js.Parse(parse.NewInputBytes(append([]byte{}, doc...)), opts); err != nil {
 			rep.Eval("gen:"+string(doc), false, "js-generated-program-rejected")
 			rejected++
 			continue
 		}
-		for _, at := range boundaryPoints(doc, starts, ends) {
+		for _, at := range c15BoundaryPoints(doc, starts, ends) {
 			for _, ill := range c15IllegalJS {
-				input := insertAt(doc, at, ill)
+				input := c15InsertAt(doc, at, ill)
 				var err error
 				if p := catch(func() { _, err = js.Parse(parse.NewInputBytes(append([]byte{}, input...)), opts) }); p != nil {
 					rep.Violate("c15-panic:js:"+trunc(hx(input), 80), fmt.Sprintf("js.Parse(%q) panics: %v", input, p), map[string]interface{}{"input": hx(input)})
@@ -1008,11 +1028,11 @@ func c15ErrorOracle(r *Rng, tier string, rep *Report) {
 					rep.Eval(key, true, "js-insert")
 					continue
 				}
-				want := positionOf(input, at)
-				if got := (posTriple{pe.Line, pe.Column, pe.Context}); got != want {
+				want := c15PositionOf(input, at)
+				if got := (c15PosTriple{pe.Line, pe.Column, pe.Context}); got != want {
 					rep.Violate("c15-insert-position:js:"+trunc(hx(input), 80), fmt.Sprintf("js: %q with %q inserted at offset %d (line %d col %d): error %q reported at line %d col %d", doc, ill, at, want.line, want.col, pe.Message, pe.Line, pe.Column), replay)
 				}
-				c15CheckError(rep, "js", input, err, at, true)
+				c15CheckError(rep, "js", input, nil, err, at, true)
 				rep.Eval(key, true, "js-insert")
 			}
 		}
@@ -1025,22 +1045,38 @@ func c15ErrorOracle(r *Rng, tier string, rep *Report) {
 	if tier == "thorough" {
 		nm = 150000
 	}
-	for i := 0; i < nm; i++ {
+	// directed inputs (parser index, text): errors after text that the lexers rewrite in place
+	directed := []struct {
+		which int
+		text  string
+	}{
+		{1, "<a b=\"x\ny\" \x00>"}, {1, "<a b='\t' \x00"}, {1, "<a b=\"1\r\n2\"\n \x00"}, {1, "<a b=c\n\x00"}, {1, "<a>\n<b \x00"},
+		{2, "</A><svg>\x00"}, {2, "<DIV\nCLASS=X><svg>\x00"}, {2, "<p>\n<svg>\x00"}, {2, "<math>\r\n<a \x00"},
+		{0, "{\"a\":\n[1,\n#]}"}, {6, "var x = 1;\nlet \x00"}, {5, "a\n\"b"}, {3, "a{b:c}\nd{e;f:g}"}, {4, "a:b;\nc d"},
+	}
+	for i := -len(directed); i < nm; i++ {
 		var input []byte
-		for n := 1 + r.Intn(6); n > 0; n-- {
-			input = append(input, frags[r.Intn(len(frags))]...)
+		which := 0
+		if i < 0 {
+			input = []byte(directed[-i-1].text)
+			which = directed[-i-1].which
+		} else {
+			for n := 1 + r.Intn(6); n > 0; n-- {
+				input = append(input, frags[r.Intn(len(frags))]...)
+			}
+			which = i % 7
 		}
-		which := i % 7
 		key := fmt.Sprintf("m%d:%x", which, input)
 		cp := func() *parse.Input { return parse.NewInputBytes(append([]byte{}, input...)) }
 		var err error
+		var curBuf []byte
 		stop, exact := -1, false
 		who := ""
 		p := catch(func() {
 			switch which {
 			case 0:
 				who = "json"
-				err, stop, _ = runJSON(input)
+				err, stop, _ = c15RunJSON(input)
 				exact = true
 			case 1:
 				who = "xml"
@@ -1048,7 +1084,7 @@ func c15ErrorOracle(r *Rng, tier string, rep *Report) {
 				l := xml.NewLexer(in)
 				for k := 0; k < len(input)+5; k++ {
 					if tt, _ := l.Next(); tt == xml.ErrorToken {
-						err, stop, exact = l.Err(), in.Offset(), true
+						err, stop, exact, curBuf = l.Err(), in.Offset(), true, in.Bytes()
 						break
 					}
 				}
@@ -1058,7 +1094,7 @@ func c15ErrorOracle(r *Rng, tier string, rep *Report) {
 				l := html.NewLexer(in)
 				for k := 0; k < len(input)+5; k++ {
 					if tt, _ := l.Next(); tt == html.ErrorToken {
-						err, stop, exact = l.Err(), in.Offset(), true
+						err, stop, exact, curBuf = l.Err(), in.Offset(), true, in.Bytes()
 						break
 					}
 				}
@@ -1072,7 +1108,7 @@ func c15ErrorOracle(r *Rng, tier string, rep *Report) {
 						e := pr.Err()
 						if _, ok := e.(*parse.Error); ok {
 							// a parse error does not stop the css parser: check it and go on
-							c15CheckError(rep, who, input, e, in.Offset(), false)
+							c15CheckError(rep, who, input, in.Bytes(), e, in.Offset(), false)
 							rep.Eval(key+fmt.Sprint(k), true, "css-parse-error")
 							continue
 						}
@@ -1090,7 +1126,7 @@ func c15ErrorOracle(r *Rng, tier string, rep *Report) {
 					if tt == js.ErrorToken {
 						e := l.Err()
 						if _, ok := e.(*parse.Error); ok {
-							c15CheckError(rep, who, input, e, before, false)
+							c15CheckError(rep, who, input, in.Bytes(), e, before, false)
 							rep.Eval(key+fmt.Sprint(k), true, "js-lexer-error")
 							continue
 						}
@@ -1099,7 +1135,9 @@ func c15ErrorOracle(r *Rng, tier string, rep *Report) {
 				}
 			default:
 				who = "js"
-				_, err = js.Parse(cp(), js.Options{})
+				in := cp()
+				_, err = js.Parse(in, js.Options{})
+				curBuf = in.Bytes()
 			}
 		})
 		if p != nil {
@@ -1108,7 +1146,7 @@ func c15ErrorOracle(r *Rng, tier string, rep *Report) {
 		}
 		_, isPE := err.(*parse.Error)
 		if isPE {
-			c15CheckError(rep, who, input, err, stop, exact)
+			c15CheckError(rep, who, input, curBuf, err, stop, exact)
 		}
 		b := who + "-noerror"
 		if isPE {
@@ -1120,7 +1158,7 @@ func c15ErrorOracle(r *Rng, tier string, rep *Report) {
 
 func init() {
 	props["C15"] = &PropSpec{
-		Models: []*Model{positionModel, errLexerModel},
+		Models: []*Model{c15PositionModel, c15ErrLexerModel},
 		Oracles: []*Oracle{
 			{Name: "c15-position-text", Run: c15PositionOracle},
 			{Name: "c15-error-offsets", Run: c15ErrorOracle},
